@@ -240,6 +240,12 @@ def gen_dag(rng, nmin=5, nmax=12, sysm=None, allow_library=True):
             node['lopt'] = '0x%x' % rng.randint(0x1000, 0x7fffffff)
         nodes.append(node)
         _assign_calls(rng, nodes, node)
+    # a third of the all-C binaries say so explicitly (lang='c'): the C driver then links
+    # them even when a static C++ library is below, and needs that library's runtime
+    for node in nodes:
+        if node['kind'] in ('exe', 'shared') and node['tus'] and \
+           all(tu['lang'] == 'c' for tu in node['tus']) and rng.random() < 0.33:
+            node['force_lang'] = 'c'
     return nodes
 
 
@@ -380,6 +386,19 @@ def directed_dags(sysm):
         _exe(4, 'bin/prog4', [0, 1, 2], [(2, 2, 'f'), (2, 2, 'g')]),
         _exe(5, 'out/tool5', [1, 3, 2], [(3, 3, 'f')], lang='c++'),
     ]))
+    # D12: C binaries (lang='c' given) above static C++ libraries, directly and through a
+    # static C library: the C++ runtime must come after the archives that need it
+    d12 = [
+        _lib(0, 'static', 'cxx/n0impl', [], lang='c++'),
+        _lib(1, 'static', 'lib/n1shim', [0], fcalls=[(0, 0, 'f')], gcalls=[(0, 0, 'g')]),
+        _exe(2, 'bin/prog2', [0], [(0, 0, 'f'), (0, 0, 'g')]),
+        _exe(3, 'bin/tool3', [1], [(1, 1, 'f'), (1, 1, 'g')]),
+        _lib(4, 'shared', 'so/n4dyn', [1], fcalls=[(1, 1, 'g')], gcalls=[]),
+        _exe(5, 'tool5', [4], [(4, 4, 'f'), (4, 4, 'g')]),
+    ]
+    for n in (d12[2], d12[3], d12[4]):
+        n['force_lang'] = 'c'
+    out.append(('c-binaries-on-static-c++-libraries', d12))
     return out
 
 
@@ -617,6 +636,8 @@ def render(case):
                         ('-Wl,--defsym=%s=%s' % (lopt_symbol(n), n['lopt'])))
         if n.get('version'):
             args.append('version=%r, soversion=%r' % tuple(n['version']))
+        if n.get('force_lang'):
+            args.append('lang=%r' % n['force_lang'])
         bfg.append('n%d = %s(%s)' % (n['id'], fn[n['kind']], ', '.join(args)))
     bfg.append('')
     files['build.bfg'] = '\n'.join(bfg)
